@@ -353,11 +353,38 @@ def build_classes(table):
 # ---------------------------------------------------------------------------
 
 
+# What the class TABLE declares about do_not_copy, per generated class (the oracles judge by the declaration, never by
+# the library's own metadata: metadata corrupted by a bootstrap of another class must not excuse sharing, C08-r2s1).
+DECLARED_CLASS_DNC = {}  # class -> bool
+DECLARED_ATTR_DNC = {}  # class -> {attribute name: bool}
+
+
+def declared_class_dnc(cls):
+    if cls in DECLARED_CLASS_DNC:
+        return DECLARED_CLASS_DNC[cls]
+    meta = getattr(cls, "__spec_class__", None)  # hand-written classes of the `extra` sections
+    return bool(meta is not None and meta.do_not_copy)
+
+
+def declared_attr_dnc(cls, name):
+    """True / False as declared; None when `name` is not a managed attribute of `cls`."""
+    if cls in DECLARED_ATTR_DNC:
+        return DECLARED_ATTR_DNC[cls].get(name)
+    meta = getattr(cls, "__spec_class__", None)
+    spec = meta.attrs.get(name) if meta is not None else None
+    return None if spec is None else bool(spec.do_not_copy)
+
+
 class World:
     def __init__(self, table):
         self.table = table
         self.classes = build_classes(table)
         self.cls_index = {cls: c for c, cls in enumerate(self.classes)}
+        for c, cd in enumerate(table["classes"]):
+            DECLARED_CLASS_DNC[self.classes[c]] = bool(cd.get("dnc"))
+            DECLARED_ATTR_DNC[self.classes[c]] = {
+                attr_name(a["name"]): bool(a.get("dnc") or cd.get("dnc")) for a in cd["attrs"]
+            }
         self.vars = {}
         self.args = {}
         self.faults = ()
@@ -807,6 +834,17 @@ def deep_snapshot(obj, seen=None):
     if type(obj) is set:
         return ("set", id(obj), tuple(sorted(map(repr, obj))))
     d = getattr(obj, "__dict__", None)
+    if d is not None and type(obj).__name__ in ("KeyedList", "KeyedSet") and "_dict" in d:
+        # keyed containers: the item sequence AND the key index (key -> which item object), so that an index
+        # that lost or kept a stale key shows even though list(obj), len, == and repr look the same
+        items = d.get("_list")
+        return (
+            "keyed",
+            id(obj),
+            type(obj).__name__,
+            None if items is None else tuple(deep_snapshot(x, seen) for x in items),
+            tuple((repr(k), id(v), deep_snapshot(v, seen)) for k, v in d["_dict"].items()),
+        )
     if d is not None and hasattr(type(obj), "__spec_class__"):
         return (
             "inst",
@@ -844,6 +882,10 @@ def mutable_ids(obj, stop=None, out=None):
             mutable_ids(x, stop, out)
     elif type(obj) is set:
         out[id(obj)] = obj
+    elif type(obj).__name__ in ("KeyedList", "KeyedSet") and "_dict" in getattr(obj, "__dict__", {}):
+        out[id(obj)] = obj
+        for x in list(obj.__dict__.get("_list") or []) + list(obj.__dict__["_dict"].values()):
+            mutable_ids(x, stop, out)
     elif hasattr(type(obj), "__spec_class__") and hasattr(obj, "__dict__"):
         out[id(obj)] = obj
         for x in obj.__dict__.values():
@@ -917,7 +959,8 @@ def replay(case, on_op=None, on_other=None):
     exactly as `run_line` does. `on_other(world, line)` is called around non-op lines."""
     POOL.begin(())
     world = World(case["table"])
-    for line in case["ops"]:
+    for line_index, line in enumerate(case["ops"]):
+        world.line_index = line_index  # hooks that need to know which line of the case is running
         toks = line.split()
         if toks[0] != "op":
             if on_other is not None:
@@ -994,6 +1037,7 @@ OP_WEIGHTS = {
     "alias": 1,
     "undeclared": 0.3,
     "rollback_probe": 0,
+    "nested_probe": 0,
 }
 
 INT_KINDS = ["none", "plain", "attr", "factory", "fplain", "ffactory"]
@@ -1070,6 +1114,11 @@ def gen_table(rng, prof):
     c1 = {"attrs": attrs, "postcopy": int(rng.random() < P["p_postcopy"])}
     if rng.random() < P["p_frozen"]:
         c1["frozen"] = 1
+    # frozen=True introduced by a spec SUBCLASS of a non-frozen spec class: the inherited attributes are owned by the
+    # non-frozen parent (C07-r2s2)
+    frozen_by_subclass = rng.random() < P.get("p_frozen_by_subclass", 0.0)
+    if frozen_by_subclass:
+        c1.pop("frozen", None)
     classes.append(c1)
     # ---- C2: plain subclass overriding some defaults
     if rng.random() < P["p_plain_sub"]:
@@ -1093,7 +1142,7 @@ def gen_table(rng, prof):
             }
         )
     # ---- C3: spec subclass adding an attribute, maybe overriding a default
-    if rng.random() < P["p_spec_sub"]:
+    if frozen_by_subclass or rng.random() < P["p_spec_sub"]:
         c = len(classes)
         ov = []
         for a in attrs:
@@ -1101,12 +1150,19 @@ def gen_table(rng, prof):
                 ov.append([a["name"], _lit_for(a["kind"], rng)])
         extra_kind = rng.choice(["int", "li", "si"])
         extra = {"name": len(attrs), "kind": extra_kind, "owner": c, **_default_for(extra_kind, rng, allow_none=True)}
+        # the frozen flag belongs to each decorated class: a frozen spec subclass of a non-frozen spec class (whose
+        # inherited attributes are OWNED by the non-frozen parent) and the reverse (C07-r2s2)
+        sub_frozen = c1.get("frozen", 0)
+        if frozen_by_subclass:
+            sub_frozen = 1
+        elif rng.random() < P.get("p_sub_frozen_flip", 0.2):
+            sub_frozen = 0 if sub_frozen else 1
         classes.append(
             {
                 "attrs": [dict(a) for a in attrs] + [extra],
                 "base": 1,
                 "plain": 0,
-                "frozen": c1.get("frozen", 0),
+                "frozen": sub_frozen,
                 "postcopy": c1["postcopy"],
                 "overrides": ov,
             }
@@ -1421,6 +1477,29 @@ class OpGen:
                 toks += [f"f{x['name']}={self.transform_for(x['kind'], bad=False)}" for x in mid]
                 toks.append(f"f{last['name']}={self.transform_for(last['kind'], bad=True)}")
                 self.emit(f"op - transform {r} ip=1 " + " ".join(toks))
+        elif name == "nested_probe":
+            # in-place keyword edit / attribute transform of a nested spec value that SUCCEEDS on the nested
+            # value while the owner-level step after it may fail (owner's preparer at its n-th call, frozen owner):
+            # the nested value must then be as before (C04-r2s2)
+            subs = [x for x in attrs if x["kind"].startswith("spec:")]
+            if not subs:
+                return
+            withprep = [x for x in subs if x.get("prep")]
+            ad = rng.choice(withprep) if withprep and rng.random() < 0.7 else rng.choice(subs)
+            sc = int(ad["kind"][5:])
+            sub_attrs = list(self.cd(sc)["attrs"])
+            rng.shuffle(sub_attrs)
+            sub_attrs = sub_attrs[: rng.randrange(1, 3)]
+            if rng.random() < 0.6:
+                if ad.get("prep") and rng.random() < 0.6:
+                    self.emit(f"faults preparer:{rng.choice([1, 1, 2, 3])}")
+                toks = [f"k{x['name']}={self.value(x['kind'], bad=False)}" for x in sub_attrs]
+                self.emit(f"op - updattr {r} {ad['name']} M ip=1 " + " ".join(toks))
+            else:
+                if ad.get("prep") and rng.random() < 0.6:
+                    self.emit(f"faults preparer:{rng.choice([1, 1, 2, 3])}")
+                toks = [f"f{x['name']}={self.transform_for(x['kind'], bad=False)}" for x in sub_attrs]
+                self.emit(f"op - trattr {r} {ad['name']} - ip=1 " + " ".join(toks))
         elif name == "reset":
             self.maybe_faults(["postCopy", "preparer", "itemPreparer"])
             self.emit(f"op {self.dst(c)} reset {r} {self.ip()}")
@@ -1756,12 +1835,11 @@ def dnc_held_ids(obj, out=None, seen=None):
         meta = type(obj).__spec_class__
         # (reachability is computed into a private dict and merged: `out` may
         # already contain some of these objects with an outdated set of children)
-        if meta.do_not_copy:
+        if declared_class_dnc(type(obj)):
             out.update(reachable_ids(obj))
             return out
         for k, v in obj.__dict__.items():
-            spec = meta.attrs.get(k)
-            if spec is not None and spec.do_not_copy:
+            if declared_attr_dnc(type(obj), k):
                 out.update(reachable_ids(v))
             else:
                 dnc_held_ids(v, out, seen)
